@@ -107,7 +107,8 @@ def audit_clang(ctx, cases, family, limit):
         e = c["_e"]
         return any(e[i][0] == "TNUMBER" and e[i + 1][0] == "TCHARCONST" and not e[i + 1][2] for i in range(len(e) - 1))
 
-    sel = [c for c in cases if c["r"] == "ok" and b"u8'" not in text_of(c).replace(b"\\\n", b"") and not digit_sep(c)]
+    bs_space = re.compile(rb"\\[ \t]+\n")     # clang/gcc extension: backslash, white space, new-line is taken as a splice (C11: it is not)
+    sel = [c for c in cases if c["r"] == "ok" and b"u8'" not in text_of(c).replace(b"\\\n", b"") and not digit_sep(c) and not bs_space.search(text_of(c))]
     if len(sel) > limit:
         sel = ctx.rng.sample(sel, limit)
 
